@@ -22,7 +22,7 @@ fn verif_native_core_eval_witness() {
     std::panic::set_hook(Box::new(|_| {}));
     let mut n = 0;
     let mut bad: Vec<String> = Vec::new();
-    let cases: [(&str, &str, &str); 77] = [
+    let cases: [(&str, &str, &str); 82] = [
         // ---- lexical scope: the innermost binding, found where the procedure was CREATED
         ("(define x 1) (define (f) x) (define (g x) (f)) (g 2)", "value 1", "lexical, not dynamic, scope"),
         ("(define (make-adder n) (lambda (x) (+ x n))) ((make-adder 3) 4)", "value 7", "a closure sees the frame it was created in"),
@@ -75,6 +75,11 @@ fn verif_native_core_eval_witness() {
         ("(define n 0) (define (tick) (set! n (+ n 1)) n) (if #f (tick) 'b) n", "value 0", "the arm not selected is not evaluated (consequent)"),
         ("(define n 0) (define (tick) (set! n (+ n 1)) #f) (if (tick) 1 2) n", "value 1", "the test is evaluated exactly once"),
         ("(define (f x) (if (< x 0) (- 0 x) x)) (+ (f -3) (f 4))", "value 7", "if in tail position of a body"),
+        ("(define (f x) (if x 1 2)) (f 7)", "value 1", "a tail-position if: a number is true"),
+        ("(define (f x) (if x 1 2)) (f '())", "value 1", "a tail-position if: the empty list is true"),
+        ("(define (f x) (if x 1 2)) (f #f)", "value 2", "a tail-position if: #f is false"),
+        ("(define (f x) (if x 1 2)) (= (f 0) (+ 0 (if 0 1 2)))", "value #t", "tail and non-tail if agree"),
+        ("(define (loop n acc) (if (if (> n 0) n #f) (loop (- n 1) (+ acc 2)) acc)) (loop 100 0)", "value 200", "a loop whose test yields a number"),
         // ---- calls: every operand exactly once, before the call
         ("(define n 0) (define (tick) (set! n (+ n 1)) n) (define (f a b) (+ a b)) (f (tick) (tick)) n", "value 2", "every operand is evaluated exactly once"),
         ("(define n 0) (define (tick) (set! n (+ n 1)) n) (define (f a b) n) (f (tick) (tick))", "value 2", "operands are evaluated before the body runs"),
